@@ -801,13 +801,23 @@ var scenarios = []scenario{
 	}, 3, false},
 	{"bootstrap-after-voting", func(c *simCluster) {
 		// a node without configuration grants a vote (term and vote become durable) and is bootstrapped
-		// afterwards: the term on disk must not go back, the vote must not be forgotten
+		// afterwards (with the configuration every node of the cluster is bootstrapped with): the term on
+		// disk must not go back, the vote must not be forgotten
 		c.elect(1)
 		for _, term := range []uint64{5, 1} {
 			id := uint64(4)
 			if term == 1 {
 				id = 5
 			}
+			// the node starts again on an empty directory
+			c.nodes[id].kill()
+			var ids []uint64
+			for _, x := range c.ids {
+				if x != id {
+					ids = append(ids, x)
+				}
+			}
+			c.ids = ids
 			if err := c.addNode(id, nil); err != nil {
 				return
 			}
@@ -820,7 +830,6 @@ var scenarios = []scenario{
 			for v, vn := range c.boot {
 				nodes[v] = vn
 			}
-			nodes[id] = Node{ID: id, Addr: fmt.Sprintf("M%d:8888", id), Voter: true}
 			cfg := Config{Nodes: nodes}
 			t := ChangeConfig(cfg).(changeConfig)
 			st := c.newTask(id, t, "changeConfig")
@@ -832,7 +841,7 @@ var scenarios = []scenario{
 				c.crash(id, true)
 			}
 		}
-	}, 3, false},
+	}, 5, false},
 	{"single-voter-grows", func(c *simCluster) {
 		c.elect(1)
 		_ = c.addNode(2, nil)
